@@ -61,12 +61,12 @@ func main() {
 				lf.Close()
 			}
 		}
-		// installed under the name "convflaky" the converter dies the first time it is handed a stream (once per
+		// installed under a name that starts with "convflaky" the converter dies the first time it is handed a stream (once per
 		// stream; the marker lives next to the converter directory, which belongs to one service instance)
-		if filepath.Base(os.Args[0]) == "convflaky" {
+		if base := filepath.Base(os.Args[0]); strings.HasPrefix(base, "convflaky") {
 			var m struct{ StreamID uint64 }
 			json.Unmarshal([]byte(meta), &m)
-			marker := filepath.Join(filepath.Dir(filepath.Dir(os.Args[0])), fmt.Sprintf("convflaky-died-on-%d", m.StreamID))
+			marker := filepath.Join(filepath.Dir(filepath.Dir(os.Args[0])), fmt.Sprintf("%s-died-on-%d", base, m.StreamID))
 			if _, err := os.Stat(marker); err != nil {
 				os.WriteFile(marker, nil, 0o644)
 				fmt.Fprintf(os.Stderr, "dying once on %s", meta)
